@@ -27,6 +27,10 @@ CtrlsC01 == { Ctl(pk, f, n, pre, tg, <<>>) : pk \in {"p1", "p2", "p1/f1x"}, f \i
 MethodsC01 == { Mth(f, v, r, h, d, <<>>) : f \in {"", "f2"}, v \in {"GET", "POST", "DELETE"}, r \in {"/", "/x", "x", "//x", "/x/", "/{id}", "/{id}/y", "/{key}"},
                                            h \in BOOLEAN, d \in BOOLEAN }
 
+\* the core of the path space: one controller, two methods; every pairing of slash spellings and verbs on (possibly) the same path
+CtrlsC01core == { Ctl("p1", "f1", "AController", pre, "A", <<>>) : pre \in {"/a", "/a/"} }
+MethodsC01core == { Mth("", v, r, FALSE, FALSE, <<>>) : v \in {"GET", "POST", "DELETE"}, r \in {"/x", "//x", "/", "/{id}"} }
+
 \* ---- C15 at project level: few verbs, overlapping literal/parameter routes under prefixes that create or remove the overlap -----
 CfgsC15 == { Cfg("gin", "3.0.0", FALSE, NoSec, <<"s1">>) }
 CtrlsC15 == { Ctl(pk, "f1", n, pre, n, <<>>) : pk \in {"p1", "p2"}, n \in {"AController", "BController", "CController"}, pre \in {"", "/a", "/a/", "/{t}", "/b"} }
